@@ -340,3 +340,15 @@ def coverage(ctx, plans, results):
         "distinct_interleavings_measure": "distinct (job kind, backend, options, verdict) tuples with a perturbed heap: %d" % len(abstracts),
         "faults_injected": "none (environment/schedule perturbation only); stale-output pre-placement counted in perturbed_executions",
     }
+
+
+class Cov:
+    def __init__(self, ctx):
+        self.ctx, self.plans, self.results = ctx, [], []
+
+    def add(self, plan, result):
+        self.plans.append(plan)
+        self.results.append(result)
+
+    def finish(self):
+        return coverage(self.ctx, self.plans, self.results)
